@@ -29,9 +29,32 @@ def watch_campaign(ck):
     return found
 
 
+def filtered_inputs(ck):
+    """changes to inputs declared through extension filters — one directory listed under two different filters — must be
+    rebuilt as well (the real watcher; shared with C16, here only the operations on declared inputs)"""
+    import concurrent.futures
+    import random
+    n = 3 if ck.tier == 'quick' else 24
+    ck.rule('watch: a target whose input lists one directory twice under two extension filters (and a second directory under one '
+            'of them): modify / create / rename-over / move-in / delete of files selected by either resource, between irrelevant '
+            'operations; every operation on a declared input must be followed by a run within 5 s')
+    jobs = [random.Random(ck.rng.getrandbits(48)) for _ in range(n)]
+    with concurrent.futures.ThreadPoolExecutor(max_workers=3) as ex:
+        for obs, V in ex.map(lambda r: watchrun.filter_scenario(r, n_ops=10, tag='C06f%d' % r.getrandbits(20)), jobs):
+            ck.count(('filtered-inputs', tuple(obs['ops'])), sample={'operations': obs['ops'], 'runs(filtered, unfiltered)': obs['runs']})
+            for text in V.get('C16', []):
+                if 'did not trigger' in text or 'exited' in text:
+                    ck.violation({'kind': 'real-watcher', 'what': 'a change to a declared input was never rebuilt: ' + text,
+                                  'operations': obs['ops'],
+                                  'replay': 'zinoma --watch on a target with input [{paths:[src],extensions:[txt]}, '
+                                            '{paths:[src,docs],extensions:[md]}] (either order); perform the listed operations'},
+                                 found_input=True)
+
+
 def run(ck):
     engine.check_engine(ck, 'C06', None, 'every field (incl. change notices and Invalidated words)', n_sys_quick=6,
                         fail_p=0.05, extra=watch_campaign)
+    filtered_inputs(ck)
 
 
 def replay(ck, path):
